@@ -1094,3 +1094,67 @@ def unit_exact(ctx):
         else:
             ctx.violation(key, f.loc(sb), 'the worker never checks that the decoded member fills its unit: bytes after the member inside the unit (a damaged '
                           'member pulled in by an edited member size) are taken for trailing data and dropped; the reader returns Ok with a hole')
+
+
+# --------------------------------------------------------------------------- ERR-RETURN-STICKY
+
+@rule('ERR-RETURN-STICKY', ['C09', 'C05', 'C08'], floor=2)
+def err_return_sticky(ctx):
+    """A reader coordinator that returns an error has stopped in the middle of something (a half-read chunk, a unit
+    that was dispatched and lost, a source at an unknown position): the next call must not carry on from there. Every
+    `Err` the coordinator builds inside its loop is therefore either built in the error state's own arm, or preceded
+    on its path by a store of the error state into `self.state`. An `Err` returned from any other state leaves the
+    reader live; the next read() resumes parsing in the middle of a chunk and can hand out wrong bytes with Ok."""
+    F = ctx.facts
+    cs = [(f, r) for f, r in coordinator_fns(F) if 'reader' in f.file]
+    if not cs:
+        return ctx.anchor_missing('reader coordinator functions')
+    for f, recvs in cs:
+        key = '%s:every-Err-leaves-the-error-state-behind' % f.key
+        ev, sty = _error_variant(F, f)
+        if ev is None:
+            ctx.violation(key, f.loc(0), 'cannot find the error state (fail closed)')
+            continue
+        prov = Prov(f)
+        vname = None
+        for p, a in F.adts.items():
+            if last_seg(p) == sty and a['kind'] == 'enum' and p.rsplit('::', 1)[0] in f.path:
+                for v in a['variants']:
+                    if v['idx'] == ev:
+                        vname = v['name']
+        errst = set()
+        for b2, si, name, rv in self_field_stores(f):
+            e = prov.rvalue(rv, 0, '%d:%d' % (b2, si))
+            if e[0] == 'agg' and str(e[1]) == 'adt:%s::%s' % (sty, vname):
+                errst.add(b2)
+        # the error state's own arm(s)
+        arm_region = set()
+        for sb in f.reachable:
+            t = f.blocks[sb]['term']
+            if t['k'] != 'switch':
+                continue
+            dl = op_local(t['discr'])
+            dd = f.whole_defs(dl) if dl is not None else []
+            if len(dd) == 1 and dd[0][2] == 'assign' and dd[0][3]['rv']['r'] == 'discr' and dd[0][3]['rv']['p']['l'] == 1 and \
+                    'State' in dd[0][3]['rv']['p']['ty']:
+                arms = {int(a[0]): a[1] for a in t['arms']}
+                tgt = arms.get(ev)
+                if tgt is not None:
+                    arm_region |= {b for b in f.reach_from([tgt]) if f.dominates(tgt, b)}
+        errs = [b for b in sorted(f.reachable) if not f.blocks[b]['cleanup'] for s in f.blocks[b]['stmts']
+                if s['k'] == 'assign' and s['lhs']['l'] == 0 and not s['lhs']['p'] and s['rv']['r'] == 'agg' and s['rv'].get('variant_name') == 'Err']
+        # `?` exits
+        errs += [b for b, t, c in f.calls() if strip_generics(c.path).endswith('from_residual') and t['dest']['l'] == 0]
+        bad = None
+        free = f.reach_from([0], stop=errst)
+        for b in errs:
+            if b in arm_region:
+                continue
+            if b in free and b not in errst:
+                bad = b
+                break
+        if bad is not None:
+            ctx.violation(key, f.loc(bad), 'an Err is returned at %s without the reader having been moved to its error state (%s::%s): the next read() carries on '
+                          'from the middle of whatever was interrupted (a half-read chunk with a zero-filled payload decodes "successfully")' % (f.loc(bad), sty, vname))
+        else:
+            ctx.ok(key, f.loc(0), '%d Err exit(s): each in the error arm or behind a store of %s::%s' % (len(errs), sty, vname))
